@@ -14,7 +14,7 @@
 (*   TxArm       rollback timer armed, answer ok                           *)
 (*   Fail        a cache/schema call fails between two effects             *)
 (*   Restart     process restart over the same cache                       *)
-(*   Confirm / Cancel / Expire (rollback = the same pipeline, old content) *)
+(*   Confirm / Cancel / Wait (expiry; rollback = same pipeline, old content)*)
 (*   EnvSync     the device's own sync refreshes the running mirror        *)
 (***************************************************************************)
 EXTENDS IntentsSem
@@ -26,7 +26,9 @@ CONSTANTS Owner,        \* intent names
           MaxUpd,       \* max non-key leaves per intent
           MaxIntents,   \* max intents per transaction (1 or 2)
           TxnId,        \* transaction ids
-          WithFaults,   \* BOOLEAN: enable Fail / Restart / TxApplyFail
+          WithFaults,   \* BOOLEAN: enable Fail / Restart (faults between two effects)
+          FailKinds,    \* subset of {"none", "device"}: scripted outcome of the device write
+          TmoKinds,     \* subset of {"short", "long"}: transaction timeout classes
           WithLifecycle,\* BOOLEAN: transactions stay open until Confirm/Cancel/Expire
           InitDevice    \* set of initial device contents (partial functions)
 
@@ -43,7 +45,7 @@ vars == <<intended, running, device, ever, slot, pend, answers, dryPred>>
 view == <<intended, running, device, ever, slot, pend>>
 
 NoPend == [phase |-> "idle"]
-NoSlot == [id |-> "none", armed |-> FALSE, snap |-> {}, req |-> {}]
+NoSlot == [id |-> "none", armed |-> FALSE, snap |-> {}, req |-> {}, tmo |-> "long"]
 NoChg == [upd |-> {}, del |-> {}]
 NoPred == [valid |-> FALSE]
 Idle == pend.phase = "idle"
@@ -86,13 +88,13 @@ TxRefused(id) ==
     /\ Answer(id, "set", "locked")
     /\ UNCHANGED <<intended, running, device, ever, slot, pend, dryPred>>
 
-TxBegin(id, R, dry) ==
+TxBegin(id, R, dry, fail, tmo) ==
     /\ Idle /\ Free
     /\ GoodRequest(R)
-    /\ pend' = [id |-> id, req |-> R, dry |-> dry, phase |-> "begun", rb |-> FALSE,
+    /\ pend' = [id |-> id, req |-> R, dry |-> dry, phase |-> "begun", rb |-> FALSE, fail |-> fail,
                 pre |-> [I |-> intended, d |-> device, r |-> running],
                 snap |-> SnapOf(intended, R), todo |-> ReqOwners(R), chg |-> NoChg]
-    /\ slot' = [id |-> id, armed |-> FALSE, snap |-> SnapOf(intended, R), req |-> R]
+    /\ slot' = [id |-> id, armed |-> FALSE, snap |-> SnapOf(intended, R), req |-> R, tmo |-> tmo]
     /\ UNCHANGED <<intended, running, device, ever, answers, dryPred>>
 
 Done(ret) == /\ Answer(pend.id, "set", ret)
@@ -120,7 +122,7 @@ TxDryRun ==
     /\ UNCHANGED <<intended, running, device, ever>>
 
 TxApply ==
-    /\ pend.phase = "begun" /\ ~pend.dry
+    /\ pend.phase = "begun" /\ ~pend.dry /\ pend.fail = "none"
     /\ Valid(ResultCfg(NewStore(intended, pend.req), device))
     /\ \E d2 \in NextDevice(pend.req) :
          /\ device' = d2
@@ -128,8 +130,8 @@ TxApply ==
     /\ UNCHANGED <<intended, running, ever, slot, answers, dryPred>>
 
 TxApplyFail ==
-    /\ WithFaults
-    /\ pend.phase = "begun" /\ ~pend.dry
+    /\ pend.phase = "begun" /\ ~pend.dry /\ pend.fail = "device"
+    /\ Valid(ResultCfg(NewStore(intended, pend.req), device))
     /\ Done("error") /\ slot' = NoSlot
     /\ UNCHANGED <<intended, running, device, ever, dryPred>>
 
@@ -202,9 +204,13 @@ Cancel(id) ==
             /\ UNCHANGED <<intended, running, device, ever, slot>>
     /\ UNCHANGED <<pend, dryPred>>
 
-Expire ==
-    /\ Idle /\ ~Free /\ slot.armed
-    /\ DoRollback
+\* time passes: more than the short transaction timeout, less than the long one.  An armed
+\* short transaction is rolled back by its timer; nothing else may happen.
+Wait ==
+    /\ Idle
+    /\ IF ~Free /\ slot.armed /\ slot.tmo = "short"
+       THEN DoRollback
+       ELSE UNCHANGED <<intended, running, device, ever, slot>>
     /\ UNCHANGED <<pend, answers, dryPred>>
 
 \* the device's own sync refreshes the mirror
@@ -214,13 +220,13 @@ EnvSync ==
     /\ UNCHANGED <<intended, device, ever, slot, pend, answers, dryPred>>
 
 Next ==
-    \/ \E id \in TxnId, R \in Request, dry \in BOOLEAN : TxBegin(id, R, dry)
+    \/ \E id \in TxnId, R \in Request, dry \in BOOLEAN, f \in FailKinds, t \in TmoKinds : TxBegin(id, R, dry, f, t)
     \/ \E id \in TxnId : TxRefused(id)
     \/ TxReject \/ TxDryRun \/ TxApply \/ TxApplyFail
     \/ \E o \in Owner : TxPersistIntent(o)
     \/ TxPersistRunning \/ TxArm \/ Fail \/ Restart
     \/ \E id \in TxnId : Confirm(id) \/ Cancel(id)
-    \/ Expire \/ EnvSync
+    \/ Wait \/ EnvSync
 
 Spec == Init /\ [][Next]_vars
 
